@@ -477,6 +477,28 @@ where
     }
 }
 
+impl<I, P, TK> Drop for Parent<'_, I, P, TK>
+where
+    I: Input + ?Sized,
+    TK: Copy,
+{
+    /// The SPPF is as deep as the input is long. Dropping it recursively
+    /// overflows the stack for long inputs, so uniquely owned sub-trees are
+    /// unlinked iteratively before they are dropped.
+    fn drop(&mut self) {
+        let mut pending = std::mem::take(self.possibilities.get_mut());
+        while let Some(tree) = pending.pop() {
+            if let Some(SPPFTree::NonTerm { children, .. }) = Rc::into_inner(tree) {
+                for parent in children.into_inner() {
+                    if let Some(mut parent) = Rc::into_inner(parent) {
+                        pending.append(parent.possibilities.get_mut());
+                    }
+                }
+            }
+        }
+    }
+}
+
 impl<'i, I, P, TK> Parent<'i, I, P, TK>
 where
     I: Input + ?Sized,
